@@ -16,7 +16,7 @@ const key = "iris/middleware.go:SentinelMiddleware.func1"
 
 func main() {
 	probe.Init()
-	for _, cs := range probe.Plan() {
+	for cs, more := probe.Next(); more; cs, more = probe.Next() {
 		// forced: iris execution rules under which the framework itself calls ctx.Next() after every handler that
 		// neither called it nor stopped the context — returning from the middleware does not end the chain there
 		for _, forced := range []bool{false, true} {
